@@ -63,7 +63,7 @@ example : equivCheck #[⟨false, [(1, 1)]⟩, ⟨true, []⟩] [0, 1] (RE.plus (R
   `Expr.wf`: no *empty* `choice`/`seq` list — the parser never builds one (`compile` raises `IndexError` on an
   empty `seq`, and an empty `choice` compiles to an automaton that accepts nothing, see the `example` below);
   the harness checks `wf` on every AST the model's parser produces and that `Expr.toRE` of it is the
-  expression `specParse` reads.
+  expression `specParse` reads (both are theorems as well: `parseC_wf`, `parse_agrees` below).
 
   History: with the code as first pinned, these theorems needed a second hypothesis (no `{0,}` fragment
   compiled on a shared entry node): `nfa()` put the loop of `x{0,}` on the entry node, so `(b | a{0,})`
